@@ -128,6 +128,13 @@ def run(ctx):
     C10_kinds.run(ctx)
     # <<< a_c10
 
+    # >>> w_c10 (wave 5): the EXTENDED logical documents of coq/theories/LogicDocX.v (colours that are read at arbitrary
+    # object-value positions, DateHour values) rendered by the extracted model, specified by TextDeSpec2.spec_value2 /
+    # BinDoc.spec_of, and deserialized by the implementation from the bytes of both renderings (props/C10_ext.py; Props/C10_ext.v)
+    from props import C10_ext
+    C10_ext.run(ctx)
+    # <<< w_c10
+
     # scalar level of both formats against the extracted Serde model
     from props import descalar
     ctx.correspond("scalar-both", descalar.text_cases(ctx, ctx.scale(100, 1000)) + descalar.bin_cases(ctx, ctx.scale(60, 600)), nontrivial=nt)
